@@ -12,7 +12,7 @@ RULE = ("random histories of 8-35 operations biased towards table construction (
         "distinct = canonical JSON of the program; non-trivial = >= 2 structural operations and (a rejected operation "
         "or a zero-row / zero-column table)")
 ASSUMED = []
-MIX = {"sel2d": 3, "window": 1, "vcat": 2, "newvec": 3, "newtab_dict": 6, "newtab_vecs": 4, "copy": 1, "slice": 3, "mask": 2, "colview": 2, "selcols": 2,
+MIX = {"sel2d": 3, "window": 1, "vcat": 2, "newvec": 3, "newtab_dict": 6, "newtab_vecs": 4, "copy": 1, "slice": 3, "mask": 2, "rowidx": 3, "colview": 2, "selcols": 2,
        "stack": 5, "append": 3, "join": 2, "sort": 1, "transpose": 2, "math": 1, "setv": 3, "sett": 5, "setattr": 5,
        "rename": 1, "read": 2, "drop": 1}
 
